@@ -6,6 +6,7 @@ namespace Bct.Modularity
 open Finset
 
 variable {n : ℕ}
+variable {g0 : GState}
 
 theorem labOf_toLab_congr (c : Fin n → ℤ) (l : Lab n) (h : toLab c = .ok l) (i j : Fin n) :
     c i = c j ↔ labOf l i = labOf l j := by
@@ -28,7 +29,7 @@ weight, for every start partition and every sequence of visiting orders, the rou
 are the ranks of its final module slots (so exactly `1..k`, `relabel_range`), reports exactly the
 modularity of the returned partition, and that modularity is at least the modularity of the start. -/
 theorem finetuneUnd_spec (W : RMat n) (γ : ℚ) (c0 : Fin n → ℤ) (ds : List ℕ) (out : Out n)
-    (hW : Symm W) (hs : 0 < total W) (h : finetuneUnd W γ c0 ds = .ok out) :
+    (hW : Symm W) (hs : 0 < total W) (h : finetuneUnd W γ c0 ds g0 = .ok out) :
     ∃ (c' : Lab n) (q : ℚ) (mfin : Fin n → ℤ), out.levels = [(c', q)] ∧
       (∀ i : Fin n, (c'[i] : ℕ) = rank mfin i) ∧
       q = Qund W γ (labOf c') ∧ Qund W γ c0 ≤ Qund W γ (labOf c') := by
@@ -36,7 +37,7 @@ theorem finetuneUnd_spec (W : RMat n) (γ : ℚ) (c0 : Fin n → ℤ) (ds : List
   have hs0 : ¬ total W = 0 := ne_of_gt hs
   obtain ⟨c, hc, _⟩ := toLab_ok c0
   simp only [hs0, if_false, hc, bind, Except.bind, pure, Except.pure] at h
-  cases hp : passes (undKern n) n n (ds.length + 1) (pst0 (undInitFine W γ c) c) ds with
+  cases hp : passes (undKern n) n n (ds.length + 1) (pst0 (undInitFine W γ c) c g0) ds with
   | error e => simp [hp] at h
   | ok r =>
     obtain ⟨x, rest⟩ := r
@@ -99,11 +100,12 @@ theorem louvainUndLoop_spec (W0 : RMat n) (γ : ℚ) (hW0 : Symm W0) (hs : 0 < t
     intro W L L' ds rest hL h
     unfold louvainUndLoop at h
     simp only [bind, Except.bind, pure, Except.pure] at h
-    cases hp : passes (undKern n) L.nh L.nh (ds.length + 1) (pst0 (undInitLevel W (total W0) γ) (idLab n)) ds with
-    | error e => simp [hp] at h
+    generalize hp : passes (undKern n) L.nh L.nh (ds.length + 1) _ ds = res at h
+    cases res with
+    | error e => simp at h
     | ok r =>
       obtain ⟨x, rest1⟩ := r
-      simp only [hp] at h
+      simp only at h
       by_cases hst : x.starved.isSome = true
       · simp only [hst, if_true] at h
         cases h
@@ -160,15 +162,15 @@ theorem louvainUndLoop_spec (W0 : RMat n) (γ : ℚ) (hW0 : Symm W0) (hs : 0 < t
             push Not at hstop
             linarith
 
-theorem lv0_inv (W0 : RMat n) (γ : ℚ) (hW0 : Symm W0) : LvInv W0 γ W0 (lv0 n) where
+theorem lv0_inv (W0 : RMat n) (γ : ℚ) (hW0 : Symm W0) (g : GState) : LvInv W0 γ W0 (lv0 n g) where
   symm := hW0
   tot := rfl
   agg := by
     intro c'
-    have : labOf (lv0 n).ci = id := labOf_idLab
+    have : labOf (lv0 n g).ci = id := labOf_idLab
     rw [this]; rfl
   start := by
-    have : labOf (lv0 n).ci = id := labOf_idLab
+    have : labOf (lv0 n g).ci = id := labOf_idLab
     rw [this, Qund_eq_Qdir W0 γ hW0]
   head := ⟨[], rfl⟩
   prev := Or.inl rfl
@@ -182,19 +184,19 @@ all-singletons start, and from level to level `q` increases by at least `1e-10` 
 entry of `out.levels` is the sentinel level 0 `(singletons, −1)`; `hierarchy=True` returns the others, the
 plain call returns the last entry. -/
 theorem louvainUnd_spec (W : RMat n) (γ : ℚ) (ds : List ℕ) (out : Out n)
-    (hW : Symm W) (hs : 0 < total W) (h : louvainUnd W γ ds = .ok out) :
+    (hW : Symm W) (hs : 0 < total W) (h : louvainUnd W γ ds g0 = .ok out) :
     (∀ p ∈ out.levels, LevelOK W γ p) ∧
     List.IsChain (fun a b : Lab n × ℚ => a.2 + thr ≤ b.2) out.levels := by
   unfold louvainUnd at h
   have hs0 : ¬ total W = 0 := ne_of_gt hs
   simp only [hs0, if_false, bind, Except.bind, pure, Except.pure] at h
-  cases hl : louvainUndLoop (total W) γ (ds.length + 1) W (lv0 n) ds with
+  cases hl : louvainUndLoop (total W) γ (ds.length + 1) W (lv0 n g0) ds with
   | error e => simp [hl] at h
   | ok r =>
     obtain ⟨L, rest⟩ := r
     simp only [hl] at h
     cases h
-    obtain ⟨hok, hch⟩ := louvainUndLoop_spec W γ hW hs _ _ _ _ _ _ (lv0_inv W γ hW) hl
+    obtain ⟨hok, hch⟩ := louvainUndLoop_spec W γ hW hs _ _ _ _ _ _ (lv0_inv W γ hW g0) hl
     refine ⟨fun p hp => hok p (List.mem_reverse.mp hp), ?_⟩
     simp only
     rw [List.isChain_reverse]
